@@ -371,12 +371,18 @@ def check(ctx):
            detail=short(rat or ()))
     se = method(repo, eng, "_start_epoch")
     rse = evaluate(repo, se)
-    adv = [t[1][1][2] for t, _, cond in rse.calls if t[1][0] == "a"
-           and t[1][2] == "advance_epoch" and not [a for a, p in cond if a[0] == "cmp"
-                                                    and "POSTERIOR" in pretty(a)]]
-    ctx.ob("C08.R4", se, "all four chain managers advance to the new epoch",
+    # ... for EVERY epoch: the only conditions an advance may sit under are the method's own
+    # "no epoch is active" guards (each epoch gets its own chain with its own thinning)
+    guard_atoms = {a for cond, _, _ in rse.raises for a, _ in cond}
+    adv_all = [(t, cond) for t, _, cond in rse.calls if t[1][0] == "a"
+               and t[1][2] == "advance_epoch"]
+    adv = [t[1][1][2] for t, cond in adv_all if all(a in guard_atoms for a, _ in cond)]
+    ctx.ob("C08.R4", se, "all four chain managers advance to the new epoch, for every epoch "
+                         "(no condition on the epoch's type or on what was recorded before)",
            sorted(adv) == ["_kernel_state_chain", "_position_chain", "_quantities_chain",
-                           "_transition_info_chain"], detail=str(sorted(adv)))
+                           "_transition_info_chain"] and len(adv_all) == 4,
+           detail=f"unconditional: {sorted(adv)}; all: {len(adv_all)}",
+           stmt=f"advance_epoch unconditional for {sorted(adv)}")
 
     # ------------------------------------------------------------------ R5
     sr = repo.cls("liesel.goose.engine.SamplingResults")
@@ -391,6 +397,36 @@ def check(ctx):
         ctx.ob("C08.R5", fi, f"{mname} combines exactly the epochs with type == POSTERIOR "
                              f"of self.{field}", ok,
                detail=short(cf[0]) if cf else "no combine_filtered", stmt=f"{mname} filter")
+        # ... and returns what that call produced NOW: not a value kept from an earlier
+        # call (sampling may have continued since), not a post-processed one
+        rt_ = r.ret()
+        fresh = (len(cf) == 1 and rt_ is not None and rt_[0] == "call" and rt_[1][0] == "a"
+                 and rt_[1][1] == cf[0] and rt_[1][2] in ("expect", "unwrap")
+                 and len(r.returns) == 1)
+        ctx.ob("C08.R5", fi, f"{mname} returns that combination itself (`.expect()` / "
+                             f"`.unwrap()` of this call's result on its only path: nothing "
+                             f"memoised)", fresh, detail=short(rt_ or (), 160),
+               stmt=f"{mname} result " + pretty(rt_ or ())[:120])
+    for mname, field, comb in (("get_samples", "positions", "combine_all"),):
+        fi = method(repo, sr, mname, own=True)
+        r = evaluate(repo, fi)
+        rt_ = r.ret()
+        want_c = ("call", ("a", ("a", SELF, field), comb), (), ())
+        ctx.ob("C08.R5", fi, f"{mname} returns self.{field}.{comb}() of this call (nothing "
+                             f"memoised)", rt_ is not None and rt_[0] == "call" and rt_[1][0] == "a"
+               and rt_[1][1] == want_c and rt_[1][2] in ("expect", "unwrap")
+               and len(r.returns) == 1, detail=short(rt_ or (), 160),
+               stmt=f"{mname} result " + pretty(rt_ or ())[:120])
+    gr = method(repo, eng, "get_results")
+    rgr = evaluate(repo, gr)
+    rt_g = rgr.ret()
+    ctx.ob("C08.R5", gr, "Engine.get_results builds a new SamplingResults from the engine's "
+                         "current chain managers on every call (its only return)",
+           rt_g is not None and is_call(rt_g, "liesel.goose.engine.SamplingResults")
+           and len(rgr.returns) == 1
+           and kw(rt_g, "positions", 0) == ("a", SELF, "_position_chain")
+           and kw(rt_g, "transition_infos", 1) == ("a", SELF, "_transition_info_chain"),
+           detail=short(rt_g or (), 200), stmt="get_results " + pretty(rt_g or ())[:100])
     cfm = method(repo, ecm, "combine_filtered", own=True)
     rcf = evaluate(repo, cfm)
     lp = rcf.loops[0] if rcf.loops else None
@@ -454,6 +490,16 @@ def check(ctx):
     ctx.ob("C08.R5", build, "tracked keys = kernel keys + positions_included, minus "
                             "positions_excluded", ok, detail=short(pk or ()),
            stmt="tracked keys " + pretty(pk or ())[:160])
+    # what the user switched on at the builder reaches the engine (a dropped keyword falls
+    # back to the engine's default: kernel states are then silently not stored)
+    fwd_bad = []
+    if rtb is not None and rtb[0] == "call":
+        for k_ in ("store_kernel_states", "minimize_transition_infos"):
+            if kw(rtb, k_) != ("a", SELF, k_):
+                fwd_bad.append(f"{k_}={short(kw(rtb, k_) or ('c', 'engine default'), 40)}")
+    ctx.ob("C08.R5", build, "the builder hands its store_kernel_states / "
+                            "minimize_transition_infos settings to the engine", not fwd_bad
+           and rtb is not None, detail="; ".join(fwd_bad), stmt="engine options " + "; ".join(fwd_bad))
     ebi = method(repo, repo.cls("liesel.goose.builder.EngineBuilder"), "__init__")
     rebi = evaluate(repo, ebi)
     lists_ = {loc[2]: val for loc, val, _, cond in rebi.stores
